@@ -188,7 +188,7 @@ pub fn def() -> PropertyDef {
         id: "C13",
         level: "exploration",
         rule: "A case is a valid (statement, witness, context) from the C01 generator (with and without seed) proved TWICE over the free module \
-               with two generated RNG streams (ChaCha seeds or fault models), the tap recording the challenges. The nonces are read as \
+               with two generated RNG streams (ChaCha seeds, fault models, or operating-system entropy through the convenience entry RangeProof::prove - two such runs count as different randomness), the tap recording the challenges. The nonces are read as \
                coordinates of the proof points: alpha_k = coef(A, g_k), dL/dR_{j,k} = coef(L_j / R_j, g_k), d_k = coef(A1, g_k), eta_k = \
                coef(B, g_k), r = coef(A1, G_0) prod e_j, s = coef(A1, H_0) / prod e_j (self-check r y s = coef(B, h)). Oracle: all nonzero, \
                pairwise distinct within a proof; without a seed no nonce of run 1 equals any nonce of run 2 when the streams differ; with a seed \
